@@ -24,7 +24,7 @@ EVIL = "https://evil.example.org/idp"
 GOOD = "https://good.example.org/idp"
 NODE = {"many": "%s:EntitiesDescriptor" % MDNS, "single": "%s:EntityDescriptor" % MDNS}
 
-TOPS = ["none", "garbage", "copied", "own-md", "own-other", "own-md-tampered"]
+TOPS = ["none", "garbage", "garbage-whole", "copied", "own-md", "own-other", "own-md-tampered", "own-md-whole", "own-md-whole-noid"]
 PARKS = {"many": ["none", "ext+sig", "ext-sig", "nested+sig", "nested-sig"], "single": ["none", "ext+sig", "ext-sig"]}
 ROOTIDS = [None, "evil-1", "dup"]
 CERTS = ["md", "other", None]
@@ -38,30 +38,37 @@ def _idp(eid, loc):
         single_sign_on_service=[md.SingleSignOnService(binding=BINDING_HTTP_REDIRECT, location=loc)])])
 
 
-def _sign(obj, keyname, park=None):
-    """sign pysaml2 object `obj` (must have .id) with harness key `keyname`; `park` (an ET element) is appended to the
-    root's children AFTER the signature template before signing, so that it is covered by the digest"""
-    obj.signature = sigver.pre_signature_part(obj.id, env.cert_b64(keyname), 1)
-    text = str(obj)
+def _sign(obj, keyname, park=None, whole=False):
+    """sign pysaml2 object `obj` with harness key `keyname`; `park` (an ET element) is appended to the root's children
+    AFTER the signature template before signing, so that it is covered by the digest; `whole`: the Reference is URI=""
+    (the whole document) instead of "#" + ID - then obj.id may be None"""
+    obj.signature = sigver.pre_signature_part(obj.id or "unused", env.cert_b64(keyname), 1)
+    root = ET.fromstring(str(obj))
+    k = [i for i, c in enumerate(root) if c.tag == SIG][0]
+    if whole:
+        ref = root[k].find("{%s}SignedInfo/{%s}Reference" % (DS, DS))
+        ref.set("URI", "")
     if park is not None:
-        root = ET.fromstring(text)
-        k = [i for i, c in enumerate(root) if c.tag == SIG][0]
         root.insert(k + 1, park)
-        text = ET.tostring(root, encoding="unicode")
+    text = ET.tostring(root, encoding="unicode")
     xml = resp.signer(keyname).sign_statement(text, class_name(obj))
     signed_by(xml, keyname)
     return xml
 
 
-def genuine(kind):
-    """the federation's own, validly signed document (key 'md'); -> xml text"""
+GEN_URIS = ["id", "whole", "whole-noid"]
+
+
+def genuine(kind, uri="id"):
+    """the federation's own, validly signed document (key 'md'); Reference "#ID", or URI "" with / without a root ID"""
     _n[0] += 1
     if kind == "many":
-        obj = md.EntitiesDescriptor(entity_descriptor=[_idp(GOOD, "https://good.example.org/sso")], name="fed", id="fed-%d" % _n[0])
+        obj = md.EntitiesDescriptor(entity_descriptor=[_idp(GOOD, "https://good.example.org/sso")], name="fed")
     else:
         obj = _idp(GOOD, "https://good.example.org/sso")
+    if uri != "whole-noid":
         obj.id = "fed-%d" % _n[0]
-    return _sign(obj, "md")
+    return _sign(obj, "md", whole=uri != "id")
 
 
 def _parked(kind, gen_root, park):
@@ -82,27 +89,30 @@ def _parked(kind, gen_root, park):
 def build(kind, gen_xml, top, park, pos, rootid, tamper_attr="cacheDuration"):
     """-> xml text of the attacker's document"""
     gen_root = ET.fromstring(gen_xml)
-    gid = gen_root.attrib["ID"]
+    gid = gen_root.attrib.get("ID")
     parked = _parked(kind, gen_root, park)
     if kind == "many":
         obj = md.EntitiesDescriptor(entity_descriptor=[_idp(EVIL, "https://evil.example.org/sso")], name="fed")
     else:
         obj = _idp(EVIL, "https://evil.example.org/sso")
     if top.startswith("own"):
-        obj.id = "evil-1"
-        xml = _sign(obj, "other" if top == "own-other" else "md", parked)
+        if not top.endswith("-noid"):
+            obj.id = "evil-1"
+        xml = _sign(obj, "other" if top == "own-other" else "md", parked, whole="-whole" in top)
         if top == "own-md-tampered":
             assert xml.count(' ID="evil-1"') == 1
             xml = xml.replace(' ID="evil-1"', ' %s="PT1H" ID="evil-1"' % tamper_attr)
         return xml
     if rootid is not None:
-        obj.id = gid if rootid == "dup" else rootid
+        obj.id = (gid or "evil-1") if rootid == "dup" else rootid
     root = ET.fromstring(str(obj))
     front = []
     gsig = [c for c in gen_root if c.tag == SIG][0]
     if top != "none":
         s = copy.deepcopy(gsig)
-        if top == "garbage":
+        if top == "garbage-whole":     # whatever the genuine Reference is: a whole-document Reference, value garbage
+            s.find("{%s}SignedInfo/{%s}Reference" % (DS, DS)).set("URI", "")
+        if top.startswith("garbage"):
             sv = s.find("{%s}SignatureValue" % DS)
             sv.text = "AAAA" + sv.text[4:] if not sv.text.startswith("AAAA") else "BBBB" + sv.text[4:]
         front.append(s)
@@ -118,12 +128,12 @@ def build(kind, gen_xml, top, park, pos, rootid, tamper_attr="cacheDuration"):
 
 def own_ok(top, cert):
     """ground truth, from the construction: does the ROOT's own signature verify under the configured certificate"""
-    return (top == "own-md" and cert == "md") or (top == "own-other" and cert == "other")
+    return (top in ("own-md", "own-md-whole", "own-md-whole-noid") and cert == "md") or (top == "own-other" and cert == "other")
 
 
 def shape(top, park, pos):
     """which wrapping arrangement (None = not one): the class names used as finding keys"""
-    if top in ("garbage", "copied") and park.endswith("+sig") and pos == "before":
+    if top in ("garbage", "garbage-whole", "copied") and park.endswith("+sig") and pos == "before":
         return "first-signature-is-the-parked-original"
     if top == "copied" and park.endswith("-sig"):
         return "root-signature-references-the-parked-original"
@@ -135,7 +145,7 @@ def table(kind):
     out = []
     for top, park, pos, rootid, cert in itertools.product(TOPS, PARKS[kind], ["before", "after"], ROOTIDS, CERTS):
         if top.startswith("own") and (pos != "after" or rootid != "evil-1"):
-            continue
+            continue     # the attacker's own signature: root ID fixed by the variant (evil-1, or none for -noid)
         if (top == "none" or park == "none") and pos != "after":
             continue
         out.append((top, park, pos, rootid, cert))
